@@ -53,7 +53,9 @@ Do(op, a) ==
     /\ LET r == IterApply(W, kind, lo, hi, op, a)
            cs == Append(calls, [op |-> op, a |-> a, x |-> [res |-> r.res]])
            ys2 == ys \o r.y
-       IN /\ lo' = r.lo /\ hi' = r.hi /\ done' = r.done /\ ys' = ys2 /\ calls' = cs
+       IN /\ Assert(0 <= r.lo /\ r.lo <= r.hi /\ r.hi <= NItems(W, kind), <<"Range", kind, lo, hi, op, a>>)
+          /\ Assert(YieldOnce(ys2), <<"YieldOnce", kind, ys2>>)
+          /\ lo' = r.lo /\ hi' = r.hi /\ done' = r.done /\ ys' = ys2 /\ calls' = cs
           /\ UNCHANGED <<root, rkind, stack, kind>>
           /\ ~Walk => PrintT(<<"CASE", ToJson(Case(cs, r.lo, r.hi, r.done, ys2))>>)
 
